@@ -34,6 +34,7 @@ import SharkVerif.Lemmas.McBias
 import SharkVerif.Lemmas.McSolveStuck
 import SharkVerif.Lemmas.McDecision
 import SharkVerif.Lemmas.McSimplexRenum
+import SharkVerif.Lemmas.McSimplexWitness
 namespace SharkVerif.C16
 open SharkVerif.Mc SharkVerif.Gen.McTables SharkVerif.McTables
 
@@ -491,6 +492,15 @@ theorem simplex_stop_is_kkt (s : McSx Rat) (h : SxInv s) (eps : Rat) (maxIter : 
     (hstop : (solveX s eps maxIter).stop = .accuracy) :
     (solveX s eps maxIter).s.b.activeVar = (solveX s eps maxIter).s.b.P * (solveX s eps maxIter).s.b.n ∧
     KKTsx (solveX s eps maxIter).s eps := solveX_stop_kkt s h eps maxIter hstop
+
+/-- **witness for F-C16-4** (remove with the fix, see Lemmas/McSimplexWitness.lean): there is NO simplex analogue of
+`solve_never_stuck_box` on the current code, because its key lemma fails — in the MMR state `Witness.dustState`
+(one example, its variable at `1e-15`, so `varsum` is snapped to `0`; gradient `−1`) variable 0 is active and violates
+the KKT conditions, yet `shrink` deactivates every variable.  `QpSolver::solve` then alternates unshrink / shrink for
+ever (reproduced on the real code: corpus/C16/f4c_*). -/
+theorem simplex_shrink_can_deactivate_violator :
+    (0 < Witness.dustState.b.activeVar ∧ 0 < Witness.dustState.b.alpha 0 ∧ Witness.dustState.b.grad 0 < 0) ∧
+    (Witness.dustState.shrink 1).1.b.activeVar = 0 := Witness.shrink_deactivates_violator
 
 /-- non-vacuity: the invariant is satisfiable with a non-trivial state (fresh CS problem, 3 classes, 2 examples) -/
 example : SxInv (simplexProblem .WWCS 3 2 1 (fun i j => if i = j then 1 else 0) (fun i => i) (fun _ _ => 1)) :=
